@@ -216,6 +216,9 @@ func streamCheck(r *h.Run, in []byte, exp *outcome, complete bool, kind string, 
 	if !complete {
 		// only the bare input: must be an error, never a packet, never a clean EOF with data
 		dec2 := packet.NewDecoder(bytes.NewReader(in))
+		// without a limit the decoder allocates the declared length (up to 256 MiB
+		// per input and worker) before it notices the stream is shorter
+		dec2.SetReadLimit(4 << 20)
 		p2, err2 := dec2.Read()
 		if err2 == nil {
 			fail("stream-accepts-incomplete/"+kind, fmt.Sprintf("Decoder.Read returned %s from an input without a complete valid packet", ref.Canon(p2)))
